@@ -30,6 +30,28 @@ ADAPTORS = {
 }
 
 
+# Option / Result combinators -> explicit match.  (receiver kind, arms) ; arms: variant -> how the result is built
+#   ("wrap", V, "f")  : V(f(payload))      ("wrap", V, "id") : V(payload)     ("call", "f") : f(payload) as is
+#   ("call0", "f")    : f()                ("wrap0", V, "f") : V(f())         ("arg", V)    : V(second argument)
+#   ("payload",)      : payload            ("none",)         : None           ("argv",)     : second argument as is
+COMBINATORS = {
+    "std::option::Option::<T>::map":            ("opt", {"Some": ("wrap", "Some", "f"), "None": ("none",)}),
+    "std::option::Option::<T>::and_then":       ("opt", {"Some": ("call", "f"), "None": ("none",)}),
+    "std::option::Option::<T>::ok_or_else":     ("opt", {"Some": ("wrap", "Ok", "id"), "None": ("wrap0", "Err", "f")}),
+    "std::option::Option::<T>::ok_or":          ("opt", {"Some": ("wrap", "Ok", "id"), "None": ("arg", "Err")}),
+    "std::option::Option::<T>::unwrap_or_else": ("opt", {"Some": ("payload",), "None": ("call0", "f")}),
+    "std::option::Option::<T>::unwrap_or":      ("opt", {"Some": ("payload",), "None": ("argv",)}),
+    "std::result::Result::<T, E>::map":         ("res", {"Ok": ("wrap", "Ok", "f"), "Err": ("wrap", "Err", "id")}),
+    "std::result::Result::<T, E>::map_err":     ("res", {"Ok": ("wrap", "Ok", "id"), "Err": ("wrap", "Err", "f")}),
+    "std::result::Result::<T, E>::and_then":    ("res", {"Ok": ("call", "f"), "Err": ("wrap", "Err", "id")}),
+    "std::result::Result::<T, E>::or_else":     ("res", {"Ok": ("wrap", "Ok", "id"), "Err": ("call", "f")}),
+    "std::result::Result::<T, E>::ok":          ("res", {"Ok": ("wrap", "Some", "id"), "Err": ("none",)}),
+    "std::result::Result::<T, E>::unwrap_or_else": ("res", {"Ok": ("payload",), "Err": ("call", "f")}),
+}
+VARIANT_OF = {"Some": ("std::option::Option", 1), "None": ("std::option::Option", 0),
+              "Ok": ("std::result::Result", 0), "Err": ("std::result::Result", 1)}
+
+
 def _map_place(p, lm):
     q = {"l": lm(p["l"]), "p": []}
     for e in p["p"]:
@@ -167,9 +189,10 @@ def compute_idom(blocks):
 
 
 class _Builder:
-    def __init__(self, facts, body, keep, depth, adaptors, known_ids=frozenset()):
+    def __init__(self, facts, body, keep, depth, adaptors, known_ids=frozenset(), combinators=False):
         self.facts = facts
         self.known_ids = known_ids
+        self.combinators = combinators
         self.keep = keep
         self.max_depth = depth
         self.adaptors = adaptors
@@ -308,6 +331,7 @@ class _Builder:
         after = self.new_block([], None)
         exit_none = self.new_block([], None)
         exit_hit = self.new_block([], None)
+        unreach = self.new_block([], {"k": "unreachable", "line": line})
         self.blocks[bi]["stmts"].append(A(P(l_cl), U(cl_op)))
         self.blocks[bi]["term"] = {"k": "goto", "t": head, "line": line, "inl": "adaptor:" + kind}
         self.blocks[head]["stmts"] = [A(P(l_ref), {"k": "ref", "mut": True, "place": P(it)})]
@@ -316,7 +340,7 @@ class _Builder:
                                      "t": sw, "unwind": None, "exp": False, "line": line, "inl": "adaptor"}
         self.blocks[sw]["stmts"] = [A(P(l_d), {"k": "discr", "place": P(l_next), "adt": self.locals[l_next]["ty"]})]
         self.blocks[sw]["term"] = {"k": "switch", "d": {"m": P(l_d)}, "dty": "isize",
-                                   "targets": [[0, exit_none], [1, body]], "otherwise": exit_none, "line": line}
+                                   "targets": [[0, exit_none], [1, body]], "otherwise": unreach, "line": line}
         some = {"dc": "Some", "vi": 1}
         fld = {"f": 0, "name": "0", "adt": "std::option::Option"}
         self.blocks[body]["stmts"] = [
@@ -399,6 +423,110 @@ class _Builder:
         self.inlined.append(("adaptor:" + kind, bi))
         return True
 
+    def combinator(self, bi, spec, line, view):
+        """recv.comb(f)  ==>  match recv { V1(x) => .., V2(y) => .. } with the closure / function call explicit."""
+        kind, arms = spec
+        t = self.blocks[bi]["term"]
+        cont, dest, dty = t.get("t"), t["dest"], t.get("dty")
+        if cont is None or not t["args"]:
+            return False
+        recv = t["args"][0]
+        rp = recv.get("m") or recv.get("c")
+        if rp is None:
+            return False
+        needs_f = any(a[0] in ("call", "call0") or (a[0] in ("wrap", "wrap0") and a[-1] == "f") for a in arms.values())
+        f_op = t["args"][1] if len(t["args"]) > 1 else None
+        if needs_f and f_op is None:
+            return False
+        rty = self.place_ty(rp) or ("std::option::Option<?>" if kind == "opt" else "std::result::Result<?, ?>")
+        P = lambda l, *proj: {"l": l, "p": list(proj)}
+        A = lambda lhs, rv, ty=None: {"k": "assign", "lhs": lhs, "rv": rv, "lty": ty, "line": line, "exp": False, "inl": "comb"}
+        U = lambda op: {"k": "use", "a": op}
+        G = lambda b: {"k": "goto", "t": b, "line": line}
+        l_recv = self.new_local(rty)
+        l_d = self.new_local("isize")
+        self.blocks[bi]["stmts"].append(A(P(l_recv), U(recv), rty))
+        l_f = None
+        if f_op is not None and ("m" in f_op or "c" in f_op):
+            l_f = self.new_local(self.place_ty(f_op.get("m") or f_op.get("c")) or "?")
+            self.blocks[bi]["stmts"].append(A(P(l_f), U(f_op)))
+        self.blocks[bi]["stmts"].append(A(P(l_d), {"k": "discr", "place": P(l_recv), "adt": rty}))
+        names = ("None", "Some") if kind == "opt" else ("Ok", "Err")
+        arm_blocks = {}
+        unreach = self.new_block([], {"k": "unreachable", "line": line})
+
+        def agg(variant, fields):
+            adt, vi = VARIANT_OF[variant]
+            return {"k": "agg", "ak": "adt", "def": adt, "variant": variant, "vi": vi,
+                    "field_names": ["0"] if fields else [], "fields": fields}
+
+        def call_f(blk, arg_ops, out_local, nxt):
+            """emit `out_local = f(arg_ops..)` terminating block blk, continuing at nxt"""
+            if l_f is None:
+                k = f_op.get("k") or {}
+                if k.get("kind") != "fn":
+                    return False
+                # tuple-variant constructor used as a function
+                dn = k.get("def", "")
+                adt, _, var = dn.rpartition("::")
+                a = self.facts.adts.get(adt)
+                if a and any(v["name"] == var for v in a["variants"]) and dn not in self.facts.by_name:
+                    vi = [v["discr"] for v in a["variants"] if v["name"] == var][0]
+                    self.blocks[blk]["stmts"].append(A(P(out_local), {"k": "agg", "ak": "adt", "def": adt, "variant": var, "vi": vi,
+                                                                       "field_names": [str(i) for i in range(len(arg_ops))], "fields": arg_ops}))
+                    self.blocks[blk]["term"] = G(nxt)
+                    return True
+                self.blocks[blk]["term"] = {"k": "call", "fn": {"k": k}, "args": arg_ops, "dest": P(out_local), "dty": None,
+                                            "t": nxt, "unwind": None, "exp": False, "line": line, "inl": "comb-call"}
+                return True
+            l_ref = self.new_local("&mut closure")
+            l_tup = self.new_local("tuple")
+            self.blocks[blk]["stmts"].append(A(P(l_ref), {"k": "ref", "mut": True, "place": P(l_f)}))
+            self.blocks[blk]["stmts"].append(A(P(l_tup), {"k": "agg", "ak": "tuple", "fields": arg_ops}))
+            self.blocks[blk]["term"] = {"k": "call", "fn": {"k": {"ty": "fn", "kind": "fn", "def": "std::ops::FnOnce::call_once",
+                                                                 "def_id": "std::ops::FnOnce::call_once", "gargs": []}},
+                                        "args": [{"m": P(l_ref)}, {"m": P(l_tup)}], "dest": P(out_local), "dty": None,
+                                        "t": nxt, "unwind": None, "exp": False, "line": line, "inl": "comb-call"}
+            return True
+        for vi, vname in enumerate(names):
+            arm = arms[vname]
+            blk = self.new_block([], None)
+            arm_blocks[vi] = blk
+            payload = {"m": P(l_recv, {"dc": vname, "vi": vi}, {"f": 0, "name": "0", "adt": "std::option::Option" if kind == "opt" else "std::result::Result"})}
+            has_payload = vname != "None"
+            if arm[0] == "none":
+                self.blocks[blk]["stmts"].append(A(dest, agg("None", []), dty))
+                self.blocks[blk]["term"] = G(cont)
+            elif arm[0] == "payload":
+                self.blocks[blk]["stmts"].append(A(dest, U(payload), dty))
+                self.blocks[blk]["term"] = G(cont)
+            elif arm[0] == "argv":
+                self.blocks[blk]["stmts"].append(A(dest, U(f_op), dty))
+                self.blocks[blk]["term"] = G(cont)
+            elif arm[0] == "arg":
+                self.blocks[blk]["stmts"].append(A(dest, agg(arm[1], [f_op]), dty))
+                self.blocks[blk]["term"] = G(cont)
+            elif arm[0] == "wrap" and arm[2] == "id":
+                self.blocks[blk]["stmts"].append(A(dest, agg(arm[1], [payload]), dty))
+                self.blocks[blk]["term"] = G(cont)
+            elif arm[0] in ("wrap", "wrap0"):
+                l_r = self.new_local("?")
+                fin = self.new_block([A(dest, agg(arm[1], [{"m": P(l_r)}]), dty)], G(cont))
+                if not call_f(blk, [payload] if arm[0] == "wrap" and has_payload else [], l_r, fin):
+                    return False
+            elif arm[0] in ("call", "call0"):
+                l_r = self.new_local(dty or "?")
+                fin = self.new_block([A(dest, U({"m": P(l_r)}), dty)], G(cont))
+                if not call_f(blk, [payload] if arm[0] == "call" and has_payload else [], l_r, fin):
+                    return False
+            else:
+                return False
+        self.blocks[bi]["term"] = {"k": "switch", "d": {"m": P(l_d)}, "dty": "isize",
+                                   "targets": [[0, arm_blocks[0]], [1, arm_blocks[1]]], "otherwise": unreach,
+                                   "line": line, "inl": "comb"}
+        self.inlined.append(("adaptor:comb", bi))
+        return True
+
     def ret_ty(self, closure):
         return closure.raw["locals"][0]["ty"]
 
@@ -423,6 +551,17 @@ class _Builder:
                 dn, rn = f.get("def"), f.get("res")
                 rid = f.get("res_id")
                 line = t.get("line")
+                site_new = bi in self.origin or t.get("inl") is not None
+                if dn in COMBINATORS and (self.combinators or site_new):
+                    nb0 = len(self.blocks)
+                    if self.combinator(bi, COMBINATORS[dn], line, view):
+                        for nb in range(nb0, len(self.blocks)):
+                            stack_of[nb] = chain
+                            if site_new or self.combinators:
+                                self.origin.setdefault(nb, "comb")
+                        changed = True
+                        nblocks = len(self.blocks)
+                        continue
                 # adaptor with a visible closure
                 if self.adaptors and dn in ADAPTORS and len(t["args"]) == 2:
                     cid = self.closure_of_operand(t["args"][1], view)
@@ -476,10 +615,10 @@ class _Builder:
         return b
 
 
-def inline_body(facts, body, keep=lambda n: False, depth=3, adaptors=True, known_ids=frozenset()):
+def inline_body(facts, body, keep=lambda n: False, depth=3, adaptors=True, known_ids=frozenset(), combinators=False):
     """A new Body equal to `body` with crate-local callees (not kept), visible closures and loop adaptors
     expanded.  Returns `body` itself when nothing was expanded."""
-    bld = _Builder(facts, body, keep, depth, adaptors, known_ids)
+    bld = _Builder(facts, body, keep, depth, adaptors, known_ids, combinators)
     out = bld.run()
     if not bld.inlined:
         body.inlined, body.origin, body.inlined_ids = [], {}, []
